@@ -111,7 +111,7 @@ def gen_upd(r, ctx, maxsteps):
         parents.append(([r.range(-3, 3) for _ in range(d)], f))
     pool = [p for p in parents]
     toks = [ref, mu, m, d, T, steps]
-    if ref: toks += [w + 1 + r.below(3) for _ in range(m)]
+    if ref: toks += [w + 3 + r.below(3) for _ in range(m)]      # every (penalised) fitness vector dominates the reference point (finding C14-HV3D-REF-NOT-DOMINATED)
     for x, f in parents: toks += x + f
     c = 1 if algo in ("smsemoa", "ssmocma", "moead") else mu
     for _ in range(steps):
@@ -137,11 +137,14 @@ def observe_aux(ctx, exe, lines):
     tournament, MOEA/D neighbourhoods, RVEA sub-group assignment and order of the angle-penalised distances);
     they are appended to the op (`aux ...`), and re-verified by the harness in the comparison pass"""
     import subprocess
-    p = subprocess.run([exe, "--aux"], input="\n".join(lines) + "\n", capture_output=True, text=True, timeout=900)
-    out = p.stdout.split("\n")
-    if p.returncode != 0 or len(out) < len(lines):
-        ctx.log(f"aux pass failed rc={p.returncode}: {p.stderr[-1500:]}")
-        out = out + [""] * (len(lines) - len(out))
+    out, rest = [], list(lines)
+    while rest:                      # a sanitizer abort only loses the aborting line
+        p = subprocess.run([exe, "--aux"], input="\n".join(rest) + "\n", capture_output=True, text=True, timeout=900)
+        got = p.stdout.split("\n")[:-1] if p.stdout.endswith("\n") else p.stdout.split("\n")
+        got = got[:len(rest)]
+        out += got
+        if len(got) >= len(rest): break
+        out.append(""); rest = rest[len(got) + 1:]
     res = []
     for l, a in zip(lines, out):
         a = a.strip()
@@ -243,6 +246,7 @@ def run(ctx):
                     "ASan/UBSan runtime for the real code's memory safety (not a theorem)"]
     ctx.assumptions += ["1 <= mu <= population size (mu = 0 makes the C++ loop run forever; mu > n underflows popSize - mu)",
                         "tournament-based optimizers need mu >= 3 (TournamentSelection requires n > tournament size), lattice-based ones mu >= number of objectives",
+                        "every generated fitness vector strictly dominates the reference point of the hypervolume indicator (finding F-C14-2: 3-D contributions with a reference point read out of bounds otherwise)",
                         "optimizer clauses are checked on the generated runs only (fixed seeds), benchmark functions are deterministic"]
     ctx.prove(["SharkVerif.Props.C14"])
     if not ctx.quick:
